@@ -239,6 +239,97 @@ def probe_mocking():
     return res
 
 
+PROBE_THREADS = ["thread", "pool", "dummy", "timer"]
+
+
+def probe_mocking_on_threads(main):
+    """`_start_mocking; _stop_mocking` (single and nested) once more on every kind of thread a grader can find
+    itself on: a plain threading.Thread, a pool worker, a thread `threading` did not start, a Timer.  The borrowed
+    globals are process wide and `_stop_mocking` consults the current thread (the finish claim of a timed execution):
+    what the probe measures must not depend on the thread.
+    -> ([(kind, same as on the main thread and restoring)], {kind: what was seen})"""
+    import sandboxexec_common as sx
+    seen = {}
+    verdicts = []
+    for kind in PROBE_THREADS:
+        try:
+            res = sx.on_grader_thread(kind, probe_mocking)
+            same = all(res.get(k) == main.get(k) for k in main)
+            seen[kind] = "as on the main thread" if same else {k: res.get(k) for k in main if res.get(k) != main.get(k)}
+            verdicts.append((kind, bool(res.get("stopRestores")) and same))
+        except BaseException as e:      # noqa - the probe itself failed there: nothing was restored
+            seen[kind] = "probe raised %s: %s" % (type(e).__name__, str(e)[:120])
+            verdicts.append((kind, False))
+    return verdicts, seen
+
+
+def _instantiate(cls):
+    for args in (("probe",), ()):
+        try:
+            return cls(*args)
+        except BaseException:       # noqa
+            continue
+    return None
+
+
+_SWALLOW_CACHE = {}
+
+
+def probe_tracer_swallows():
+    """Which (tracer style, exception class) pairs does the tracer's `with` block NOT let through?  The model treats
+    `with self.trace.as_filename(...): exec(...)` as transparent: what the code raises is what `_execute`'s handlers
+    see.  Probed for every exception class the sandbox's own code names and all their bases (read from the tree under
+    test, sandboxexec_special.special_classes), raised inside the `with` entered once and re-entered (as `_import`
+    does), around a pre-installed trace function.  -> [(style, class name, "swallowed" | "replaced by X")]"""
+    from pedal.sandbox.tracer import TRACER_STYLES
+    import sandboxexec_special as sp
+    import pedal
+    cache_key = os.path.abspath(pedal.__file__)
+    if cache_key in _SWALLOW_CACHE:
+        return list(_SWALLOW_CACHE[cache_key])
+
+    def dummy(frame, event, arg):
+        return None
+    out = []
+    old = sys.gettrace()
+    try:
+        for name in sorted(TRACER_STYLES):
+            for rec in sp.special_classes():
+                cls = rec["cls"]
+                for nested in (False, True):
+                    exc = _instantiate(cls)
+                    if exc is None:
+                        break
+                    try:
+                        tr = TRACER_STYLES[name]()
+                    except Exception:
+                        break
+                    verdict = None
+                    sys.settrace(dummy)
+                    try:
+                        with tr.as_filename("answer.py", "x = 1\n"):
+                            if not nested:
+                                raise exc
+                            with tr.as_filename("helper.py", "y = 2\n"):
+                                raise exc
+                            verdict = "swallowed"           # only reached when the inner `with` suppressed it
+                    except BaseException as seen:       # noqa
+                        if seen is not exc:
+                            verdict = "replaced by " + type(seen).__name__
+                    else:
+                        verdict = "swallowed"
+                    finally:
+                        sys.settrace(None)
+                    if verdict is not None:
+                        item = (name, cls.__name__, verdict)
+                        if item not in out:
+                            out.append(item)
+    finally:
+        sys.settrace(old)
+    _SWALLOW_CACHE[cache_key] = list(out)
+    return out
+
+
 def probe_tracers():
     from pedal.sandbox.tracer import TRACER_STYLES
 
@@ -405,12 +496,14 @@ def generate():
     import pedal.sandbox.sandbox as sandbox_module
     import sandboxexec_ladder as ladder
     mock = probe_mocking()
+    thread_verdicts, mock_threads = probe_mocking_on_threads(mock)
     module_src = inspect.getsource(sandbox_module)
     parts, notes, ladder_info = ladder.build_ladder(module_src, mock, module_obj=sandbox_module,
                                                     module_file=inspect.getsourcefile(sandbox_module))
     class_methods = ladder.Reader(module_src).methods
     imp = walk_import(inspect.getsource(Sandbox._import), class_methods)
     tracers = probe_tracers()
+    swallows = probe_tracer_swallows()
     strategy, strategy_obs = probe_line_strategy()
     unguarded = probe_hazards()
     blocked = probe_blocked()
@@ -449,7 +542,8 @@ def generate():
         "  { reentersTracer := %s, hasHandlers := %s, touchesMocking := %s }" % (
             b(imp["reentersTracer"]), b(imp["hasHandlers"]), b(imp["touchesMocking"])),
         "",
-        "/-- `_start_mocking` / `_stop_mocking` / `_stop_patches` / `_reset_builtins`, probed on a fresh Sandbox. -/",
+        "/-- `_start_mocking` / `_stop_mocking` / `_stop_patches` / `_reset_builtins`, probed on a fresh Sandbox (on the",
+        "    main thread). -/",
         "def mockProbe : MockProbe :=",
         "  { startPushesStdout := %d, startPushesPatches := %d," % (mock["startPushesStdout"], mock["startPushesPatches"]),
         "    patchesStdout := %s, patchesSleep := %s, patchesModules := %s," % (
@@ -459,11 +553,24 @@ def generate():
         "    stopPatchesEmptyRaises := %s, popStdoutEmptyRaises := %s, builtinsPrivate := %s }" % (
             b(mock["stopPatchesEmptyRaises"]), b(mock["popStdoutEmptyRaises"]), b(mock["builtinsPrivate"])),
         "",
+        "/-- The same probe repeated with the caller on every other kind of thread a grader can run on (a plain",
+        "    threading.Thread, a pool worker, a thread `threading` did not start, a Timer): does it measure the same as on",
+        "    the main thread, restoring everything?  Seen: %s. -/" % ", ".join(
+            "%s: %s" % (k, v) for k, v in sorted(mock_threads.items())).replace("-/", "- /").replace("/-", "/ -"),
+        "def mockProbeOnThread : List (String × Bool) := " + lean_list(
+            ["(%s, %s)" % (lean_str(k), b(v)) for k, v in thread_verdicts]),
+        "",
         "/-- `TRACER_STYLES`, each probed around a pre-installed trace function (normal and raising exit; entered",
         "    once, and re-entered inside its own `with` as `_import` does). -/",
         "def traceStyles : List TraceStyle := " + lean_list(
             ["{ name := %s, installs := %s, restores := %s, restoresNested := %s }" % (lean_str(n), b(i), b(r), b(rn))
              for n, i, r, rn in tracers]),
+        "",
+        "/-- (tracer style, exception class) pairs that the tracer's `with` block does not let through unchanged,",
+        "    probed for every exception class the sandbox's own code names and their bases (%d classes). -/" % (
+            len(__import__("sandboxexec_special").special_classes())),
+        "def tracerSwallows : List (String × String) := " + lean_list(
+            ["(%s, %s)" % (lean_str(st), lean_str(c)) for st, c, _ in swallows]),
         "",
         "/-- Exception-object hazards that make `Sandbox.run` raise (one probe program each). -/",
         "def unguarded : List Hazard := " + lean_list(["." + h for h in unguarded]),
@@ -488,7 +595,8 @@ def generate():
     src = "\n".join(lines)
     return src, {"file": "PedalModel/Gen/SandboxExecGen.lean", "sha1": hashlib.sha1(src.encode()).hexdigest()[:12],
                  "notes": notes, "unguarded": unguarded, "line_strategy": strategy,
-            "tracers": tracers, "import": imp, "ladder": ladder_info}
+            "tracers": tracers, "tracer_swallows": swallows, "mock_probe_on_threads": mock_threads,
+            "import": imp, "ladder": ladder_info}
 
 
 def translate():
